@@ -21,7 +21,8 @@ def stores(results, allow_attrs=("training",), allow_owner_prefixes=("params", "
         held = {}  # id(dict) -> owner text, for dicts reached through an attribute of a pre-existing object
         for e in r["events"]:
             k = e["kind"]
-            if k == "obj_setattr" and pre_existing(e.get("obj")) and not e["attr"].startswith("__") and e["attr"] not in allow_attrs:
+            if k == "obj_setattr" and pre_existing(e.get("obj")) and not e["attr"].startswith("__") and e["attr"] not in allow_attrs \
+                    and not (e["obj"].cls.endswith(".Hedger") and not e["attr"].startswith("_")):  # re-binding the hedger's public configuration (inputs) is recomputed on every call
                 out.append(f"stores {e['obj'].name}.{e['attr']}")
             elif k == "inplace" and e.get("how") == "setitem" and isinstance(e.get("target"), Sym) and "." in e["target"].name \
                     and not ({"tensor", "buffer", "carried"} & set(e["target"].tags)) and "'" not in e["target"].name and "#" not in e["target"].name:
